@@ -20,19 +20,20 @@ import (
 )
 
 type Obligation struct {
-	ID      string `json:"id"`
-	Kind    string `json:"kind"` // assert | panic-free | unwind | reach | lock
-	Site    string `json:"site"`
-	Harness string `json:"harness"`
-	Case    string `json:"case,omitempty"`
-	pc      []*Term
-	goal    *Term
-	Verdict string            `json:"verdict"` // unsat (holds) | sat (violated) | unknown ; for reach: sat = reachable
-	Solver  string            `json:"solver"`
-	Ms      int64             `json:"ms"`
-	Model   map[string]string `json:"model,omitempty"`
-	Err     string            `json:"err,omitempty"`
-	OK      bool              `json:"ok"`
+	ID       string `json:"id"`
+	Kind     string `json:"kind"` // assert | panic-free | unwind | reach | lock
+	Site     string `json:"site"`
+	Harness  string `json:"harness"`
+	Case     string `json:"case,omitempty"`
+	pc       []*Term
+	goal     *Term
+	Verdict  string            `json:"verdict"` // unsat (holds) | sat (violated) | unknown ; for reach: sat = reachable
+	Solver   string            `json:"solver"`
+	Ms       int64             `json:"ms"`
+	Model    map[string]string `json:"model,omitempty"`
+	Err      string            `json:"err,omitempty"`
+	OK       bool              `json:"ok"`
+	Abstract bool              `json:"abstract_counterexample,omitempty"`
 }
 
 type Frame struct {
@@ -386,9 +387,9 @@ func (e *Engine) mergeStates(ss []*State) *State {
 	for i := len(ss) - 2; i >= 0; i-- {
 		res = e.merge2(conds[i], ss[i], res)
 	}
-	res.pc = append(append([]*Term(nil), ss[0].pc[:base]...), Or(conds...))
-	if len(res.pc) > 0 && res.pc[len(res.pc)-1].IsTrue() {
-		res.pc = res.pc[:len(res.pc)-1]
+	res.pc = append([]*Term(nil), ss[0].pc[:base]...)
+	if d := Or(conds...); !d.IsTrue() && !isTautology(d) {
+		res.pc = append(res.pc, d)
 	}
 	// same for the reachability core
 	cb := len(ss[0].core)
@@ -403,9 +404,9 @@ func (e *Engine) mergeStates(ss []*State) *State {
 	for i, s := range ss {
 		cc[i] = And(s.core[cb:]...)
 	}
-	res.core = append(append([]*Term(nil), ss[0].core[:cb]...), Or(cc...))
-	if len(res.core) > 0 && res.core[len(res.core)-1].IsTrue() {
-		res.core = res.core[:len(res.core)-1]
+	res.core = append([]*Term(nil), ss[0].core[:cb]...)
+	if d := Or(cc...); !d.IsTrue() && !isTautology(d) {
+		res.core = append(res.core, d)
 	}
 	return res
 }
@@ -507,8 +508,8 @@ func (e *Engine) merge2(c *Term, a, b *State) *State {
 // ---- post-dominators ----
 
 type pdInfo struct {
-	ipdom []*ssa.BasicBlock // nil = exit
-	reach [][]bool
+	ipdom   []*ssa.BasicBlock // nil = exit
+	reach   [][]bool
 	loops   []map[int]bool // natural loops (sets of block indices)
 	headers []int          // header block of each loop
 }
@@ -2123,4 +2124,69 @@ func mergeFiles(c *Term, a, b *StructV) *StructV {
 
 func absentFile() *StructV {
 	return &StructV{F: []Value{False(), BVu(0, 64), &ArrayV{T: types.Typ[types.Uint8]}}}
+}
+
+// isTautology decides propositional validity of t over its atoms (sub-terms
+// that are not and/or/not) by truth table when there are at most 12 atoms.
+// Merging all paths of a branch tree yields such disjunctions.
+func isTautology(t *Term) bool {
+	var atoms []*Term
+	idx := map[int]int{}
+	var collect func(x *Term) bool
+	collect = func(x *Term) bool {
+		switch x.Op {
+		case OpTrue, OpFalse:
+			return true
+		case OpAnd, OpOr, OpNot:
+			for _, a := range x.Args {
+				if !collect(a) {
+					return false
+				}
+			}
+			return true
+		}
+		if _, ok := idx[x.ID]; !ok {
+			if len(atoms) >= 12 {
+				return false
+			}
+			idx[x.ID] = len(atoms)
+			atoms = append(atoms, x)
+		}
+		return true
+	}
+	if !collect(t) {
+		return false
+	}
+	var ev func(x *Term, m int) bool
+	ev = func(x *Term, m int) bool {
+		switch x.Op {
+		case OpTrue:
+			return true
+		case OpFalse:
+			return false
+		case OpNot:
+			return !ev(x.Args[0], m)
+		case OpAnd:
+			for _, a := range x.Args {
+				if !ev(a, m) {
+					return false
+				}
+			}
+			return true
+		case OpOr:
+			for _, a := range x.Args {
+				if ev(a, m) {
+					return true
+				}
+			}
+			return false
+		}
+		return m>>uint(idx[x.ID])&1 == 1
+	}
+	for m := 0; m < 1<<uint(len(atoms)); m++ {
+		if !ev(t, m) {
+			return false
+		}
+	}
+	return true
 }
